@@ -122,9 +122,11 @@ func (u *Unit) call(st *State, v ssa.Value, c *ssa.CallCommon, instr ssa.Instruc
 	}
 	key := calleeKey(callee)
 	if u.libModel(st, v, key, callee, c, instr) {
+		u.callAssumesWhen(st, key, true)
 		return
 	}
 	if con := u.eng.contractFor(callee); con != nil && !con.Inline {
+		u.callAssumes(st, key)
 		args := u.argTVs(st, callee.Signature, c.Args, callee)
 		res := u.applyContract(st, con, args, instr, key)
 		u.setResults(st, v, sig, res)
@@ -319,6 +321,7 @@ func (u *Unit) invoke(st *State, v ssa.Value, c *ssa.CallCommon, instr ssa.Instr
 		return
 	}
 	if con := u.eng.contracts[key]; con != nil {
+		u.callAssumes(st, key)
 		args := []TV{{T: recv, Ty: c.Value.Type()}}
 		args = append(args, u.argTVs(st, sig, c.Args, nil)...)
 		res := u.applyContract(st, con, args, instr, key)
@@ -558,4 +561,21 @@ func (u *Unit) appendOp(st *State, v ssa.Value, c *ssa.CallCommon, instr ssa.Ins
 	u.s.assume(implies(st.reach, sx(">=", cp, nl)))
 	u.setReg(st, v, sx("mk_slc", r, "0", nl, cp))
 	u.note("A-slice: append is modelled as copy-on-append (the result never aliases its argument)")
+}
+
+// callAssumes: facts about external input the unit's contract assumes just before calls to a callee.
+func (u *Unit) callAssumes(st *State, key string) { u.callAssumesWhen(st, key, false) }
+
+func (u *Unit) callAssumesWhen(st *State, key string, after bool) {
+	if u.con == nil || u.curFn != u.top || u.s.specMode > 0 {
+		return
+	}
+	for _, ca := range u.con.CallAssumes {
+		if !strings.Contains(key, ca.Callee) || ca.After != after {
+			continue
+		}
+		env := u.newEnv(st, u.entry, u.top, u.eng.contractPkg(u.con))
+		u.s.assume(implies(st.reach, env.evalBool(ca.Clause.Expr)))
+		u.note("assumed before calls to %s in %s (input well-formedness, not checked): %s", ca.Callee, u.con.Key, ca.Clause.Expr)
+	}
 }
